@@ -185,3 +185,8 @@ package spz
 //@       sh[e][p] == shOf(b(in, old(consumed(in)), e*3 + p*3*shDim), b(in, old(consumed(in)), e*3 + p*3*shDim + 1), b(in, old(consumed(in)), e*3 + p*3*shDim + 2))
 //@     invariant row_i: forall e int :: 0 <= e && e < d ==>
 //@       sh[e][i] == shOf(b(in, old(consumed(in)), e*3 + i*3*shDim), b(in, old(consumed(in)), e*3 + i*3*shDim + 1), b(in, old(consumed(in)), e*3 + i*3*shDim + 2))
+
+// Read assembles the cloud from the section decoders above: a thin unit - every section decoder's error (and every
+// short-read signal of the standard library) must be inspected before the next section is read.
+//@ func Read frameonly
+//@   props C14
